@@ -1,7 +1,7 @@
 """C01 — inbound packets are reassembled exactly under every transport chunking (mechanism clauses)."""
 import re
 
-from engines import effects, cursor
+from engines import effects, cursor, readloop
 from engines.paths import enumerate_paths, classify_return
 from engines.prog import cname, term_str, place_fields, op_place
 from engines import terms as T
@@ -215,6 +215,17 @@ def run(ctx):
                        fn=fr.path, construct="inductive", where=fr.where(p.blocks[-1]), sample={"rule": "window-invariant", "clause": "inductive", "L": repr(st.L), "R": repr(st.R)})
         ctx.floor("C01.window-invariant", "loop round trips evaluated (%s)" % cfg, n_round, 1)
         ctx.floor("C01.window-invariant", "window obligations evaluated (%s)" % cfg, nchecks, 8)
+
+        # ---- parse when buffered ----------------------------------------------------------------
+        # the reader may go back to the transport without attempting to parse only when nothing is buffered
+        # (remaining == 0): any stronger gate ("looks complete", "enough bytes") can leave a complete command unparsed
+        ctx.rule("C01.parse-when-buffered", "the transport read is reached without a parse attempt only on a path that established remaining == 0")
+        n_skip = 0
+        for kind, p, okp, gates in readloop.unparsed_reads(fr, read_bb, [pbb], [("header", header), ("reread", read_bb)]):
+            n_skip += 1
+            ctx.ob("C01.parse-when-buffered", okp, "the reader goes (back) to the transport without a parse attempt on a path that does not establish remaining == 0 (%s; decisions: %s)" % (kind, gates[:3]),
+                   fn=fr.path, construct="skip-parse", callee=kind, where=fr.where(p.blocks[-1]), sample={"rule": "parse-when-buffered", "config": cfg, "kind": kind})
+        ctx.floor("C01.parse-when-buffered", "parser-skipping paths to the read (%s)" % cfg, n_skip, 1)
 
         # ---- short is not error ---------------------------------------------------------------
         nshort = 0
